@@ -1,3 +1,3 @@
 #!/bin/bash
 cd "$(dirname "$0")/.." || exit 2
-for s in 4 5 6 7; do for p in C02 C07 C08 C09 C10 C11 C16 C17; do echo "seed $s $(VERIF_SEED=$s ./check $p quick 2>&1 | grep -a "^$p quick\|^VIOLATION\|^supervisor\|HARNESS" | cut -c1-200 | tr '\n' ' ')"; done; done
+for s in ${SEEDS:-2 3 4 5 6 7 8 9}; do for p in C02 C07 C08 C09 C10 C11 C16 C17; do echo "seed $s $(VERIF_SEED=$s ./check $p quick 2>&1 | grep -a "^$p quick\|^VIOLATION\|^supervisor\|HARNESS" | cut -c1-200 | tr '\n' ' ')"; done; done
